@@ -121,10 +121,10 @@ CNT = "self.sample_counts"
 NC = f"len({CNT})"
 CSUM = f"Sum(p, 0, {NC}, real({CNT}[p - 1]))"
 shape("INSC03", {
-    "sample_counts": "IDict(Int)", "samples_unit": INS_ARR,
+    "sample_counts": "IDict(Int)",
     "proposal": "Obj(ISProposalC03)",
 }, cls="ImportanceNestedSampler")
-NT = "(len(self.samples_unit) + n_new)"
+NT = "(len(self.training_samples.samples) + n_new)"
 contract(
     INS, "ImportanceNestedSampler.add_new_proposal_weight", props=["C03"],
     variant_name="c03", self_shape="INSC03",
@@ -132,8 +132,14 @@ contract(
     requires=[
         # the counts account for every stored sample
         f"forall(p, 0, {NC}, {CNT}[p - 1] >= 0)",
-        f"{CSUM} == real(len(self.samples_unit))",
-        f"len(self.proposal._weights) <= {NC}",
+        # (without the independent set the 'main' samples are the training
+        # samples: ImportanceNestedSampler._ordered_samples)
+        "not self.draw_iid_live",
+        f"{CSUM} == real(len(self.training_samples.samples))",
+        # (training the new level has already added its key, with a NaN
+        # weight, to the proposal's weight dictionary)
+        f"len(self.proposal._weights) <= "
+        f"({NC} if iteration < {NC} - 1 else {NC} + 1)",
         # the level is the next one (or an existing one, checked below)
         f"-1 <= iteration and iteration <= {NC} - 1",
         "n_new >= 0", f"{NT} >= 1",
@@ -164,6 +170,9 @@ contract(
         f"forall(p, 0, {NC}, self.proposal._weights[p - 1] == "
         f"real({CNT}[p - 1]) / real{NT})",
         f"{CSUM} == real{NT}",
+        # every weight is set (none is left at the NaN placeholder)
+        "forall(p, 0, len(self.proposal._weights), "
+        "not isnan(self.proposal._weights[p - 1]))",
     ],
 )
 
@@ -329,6 +338,8 @@ def aup_contract(store, variant, iid):
              f"forall(p, 0, len({S}), " + at(store, "p", M_NEW) + ")"]
             # ... in the form the next iteration (and finalise) rely on
             + rows_ok(store, M_NEW)
+            # the store's own representation invariant (C04) is kept
+            + _rep(store)
         ),
     )
 
@@ -487,4 +498,134 @@ contract(
         "forall(i, 0, len(samples), E(result[0][i]) == "
         + MIX.format(w=W, row="result[1][i]") + ")",
     ],
+)
+
+# ---- composition: one iteration of ImportanceNestedSampler.nested_sampling_loop
+# The function-level contracts above are only worth something if the loop calls
+# them in an order and in states that meet their preconditions.  This contract
+# checks exactly that (without the independent sample set): the C03 invariant
+# of the training store together with the bookkeeping of levels, weights and
+# counts is a loop invariant of nested_sampling_loop.  The callees that do not
+# touch the stores' rows or the weights are frames (trusted, their `modifies`
+# sets inferred from the code as for C15); what is ASSUMED of the others is
+# stated in their trusted_reason.
+TSs, TSq = "self.training_samples.samples", "self.training_samples.log_q"
+LV = "self.proposal.level_count"
+LOOP_INV = (
+    _rep("training_samples")
+    + rows_ok("training_samples", f"{LV} + 2")
+    + [f"len({PW}) == {LV} + 2", f"self.proposal.flow.n_models == {LV} + 1",
+       f"{LV} >= -1", f"len({CNT}) == {LV} + 2",
+       f"forall(p, 0, {NC}, {CNT}[p - 1] >= 0)",
+       f"{CSUM} == real(len({TSs}))",
+       f"self.iteration == {LV} + 1", f"len({TSs}) >= 1",
+       f"forall(p, 0, len({PW}), not isnan({PW}[p - 1]))",
+       "forall(k, 0, len(self.proposal.flow.models), "
+       "not self.proposal.flow.models[k]['training'])",
+       "not self.finalised", "not self.draw_iid_live", "self.nlive >= 1",
+       "self.plotting_frequency >= 1"]
+)
+_S["INSC03"].attrs.update({
+    "finalised": "Bool", "min_iteration": "Int", "max_iteration": "Real",
+    "n_update": "None", "threshold_method": "Str",
+    "threshold_kwargs": "EmptyDict", "draw_constant": "Bool",
+    "replace_all": "Bool", "nlive": "Int", "importance": "Any",
+    "criterion": "Any", "plotting_frequency": "Int",
+    "checkpointing": "Bool", "stopping_criterion": "Any",
+    "training_time": "Any", "likelihood_evaluation_time": "Any",
+    # read-only properties / flags the loop consults (shadowed: their
+    # definitions are C15's concern)
+    "reached_tolerance": "Bool", "log_evidence": "Real",
+    "nested_samples_unit": "Any", "samples": "Any",
+})
+C03_FRAME = ("frame only: does not touch the rows of the sample stores, the "
+             "density tables, the proposal weights or the sample counts "
+             "(modifies set as inferred for C15)")
+
+
+def _frame(name, modifies=(), ensures=(), returns=None, params=None,
+           requires=(), reason=C03_FRAME):
+    contract(INS, f"ImportanceNestedSampler.{name}", variant_name="c03",
+             props=["C03"], self_shape="INSC03", trusted=True, verify=False,
+             trusted_reason=reason, params=params or {},
+             requires=list(requires), modifies=list(modifies),
+             ensures=list(ensures), returns=returns)
+
+
+_frame("initialise",
+       modifies=["self.training_samples", "self.proposal",
+                 "self.sample_counts", "self.iteration", "self.history"],
+       ensures=[e for e in LOOP_INV if "finalised" not in e and
+                "draw_iid_live" not in e and "nlive" not in e and
+                "plotting" not in e],
+       reason="ASSUMED: populate_live_points / proposal.initialise establish "
+       "the invariant for the initial level (one column of zeros, weight 1, "
+       "count n_initial): not under contract")
+_frame("_compute_gradient")
+_frame("determine_log_likelihood_threshold", returns="Real",
+       params={"samples": "Any", "method": "Any", "**kwargs": {}})
+_frame("update_log_likelihood_threshold", params={"threshold": "Any"},
+       modifies=["self.log_likelihood_threshold",
+                 "self.training_samples.log_likelihood_threshold"])
+_frame("remove_samples", returns="Int",
+       modifies=["self.training_samples.live_points_indices",
+                 "self.training_samples.nested_samples_indices",
+                 "self.history"],
+       ensures=_rep("training_samples") + ["result >= 0"],
+       reason="moves live indices to the nested set (C04: "
+       "OrderedSamples.remove_samples keeps the representation invariant "
+       "and does not touch samples / log_q)")
+_frame("add_new_proposal",
+       modifies=["self.proposal.level_count", "self.proposal._weights",
+                 "self.proposal.flow.n_models", "self.proposal.flow.models",
+                 "self.current_training_samples", "self.training_time"],
+       ensures=[f"{LV} == old({LV}) + 1",
+                "self.proposal.flow.n_models == "
+                "old(self.proposal.flow.n_models) + 1",
+                f"len({PW}) == old(len({PW})) + 1",
+                f"forall(p, 0, old(len({PW})), "
+                f"{PW}[p - 1] == old({PW})[p - 1])",
+                "forall(k, 0, len(self.proposal.flow.models), "
+                "not self.proposal.flow.models[k]['training'])"],
+       reason="ASSUMED of ImportanceFlowProposal.train: one more level and "
+       "one more flow, a new (NaN) entry appended to the weight dictionary, "
+       "no flow left in training mode; sample stores untouched")
+for _n in ("update_evidence", "log_state", "update_history", "produce_plots"):
+    _frame(_n, modifies=["self.history"] if _n == "update_history" else [])
+_frame("compute_importance", returns="Any",
+       params={"importance_ratio": "Any"})
+_frame("compute_stopping_criterion", returns="Any")
+_frame("checkpoint", params={"periodic": "Bool", "force": "Bool"})
+_frame("finalise",
+       modifies=["self.finalised",
+                 "self.training_samples.live_points_indices",
+                 "self.training_samples.nested_samples_indices"],
+       ensures=["self.finalised"],
+       reason="OrderedSamples.finalise moves the live indices to the nested "
+       "set (C04); rows and weights untouched")
+C03_LOOP_MOD = ["self.training_samples", "self.proposal",
+                "self.sample_counts", "self.iteration", "self.history",
+                "self.criterion", "self.importance",
+                "self.log_likelihood_threshold",
+                "self.current_training_samples", "self.training_time",
+                "self._current_proposal_entropy", "self.live_points_ess",
+                "self.draw_samples_time", "self.add_and_update_samples_time",
+                "self.reached_tolerance", "self.iid_samples"]
+contract(
+    INS, "ImportanceNestedSampler.nested_sampling_loop", variant_name="c03",
+    props=["C03"], self_shape="INSC03", log_domain=True,
+    requires=["not self.draw_iid_live", "self.nlive >= 1",
+              "self.plotting_frequency >= 1",
+              # (variable draws with an empty level: listed C20 finding)
+              "self.draw_constant or self.replace_all"],
+    modifies=C03_LOOP_MOD + ["self.finalised"],
+    may_raise={"ValueError": None},
+    returns="Tuple(Real,Any)",
+    loops={0: {"inv": LOOP_INV, "modifies": C03_LOOP_MOD}},
+    ensures=[
+        # at the end of the run (and of every iteration: loop invariant)
+        # every training sample carries the exact meta-proposal density
+        "implies(not old(self.finalised), self.finalised)"]
+    + ["implies(not old(self.finalised), " + e + ")"
+       for e in rows_ok("training_samples", f"{LV} + 2")],
 )
